@@ -673,6 +673,8 @@ func genOverlay(cf *ContractFile) (string, error) {
 						fmt.Fprintf(body, "\t_ = govcLoc(%d, %s)\n", id, rewriteBuiltins(loc))
 					}
 				}
+			case "dispatches":
+				// structural clause: no expression
 			case "gassign":
 				// ghost assignment at normal return: G(keys) := value [when cond]
 				txt, cond := cl.Text, "true"
